@@ -18,6 +18,7 @@ FIRED=""
 for c in $CHECKS; do
   r=$(AIS_REPO=$TMP timeout 900 /verif/bin/check $c quick 2>&1)
   if echo "$r" | grep -q "^VIOLATION property=$c"; then FIRED="$FIRED $c"; fi
+  if echo "$r" | grep -q "facts-unavailable\|internal-error"; then echo "$NAME $c BROKEN: $(echo "$r" | grep -m1 key=)"; fi
 done
 python3 - "$OUT" "$FIRED" "$CHECKS" <<'PY'
 import json,sys
